@@ -47,6 +47,26 @@ def gen_graph(rnd):
     return models
 
 
+def gen_long_graph(rnd):
+    """seven to fourteen models on one long chain (each link declared on either side with any cardinality, some through a junction model that is itself on the
+    chain's side), now and then a chord between two models far apart and a detached tail: paths of up to thirteen hops, and shortest paths that leave the chain"""
+    n = rnd.randint(7, 14)
+    names = ["n%d" % i for i in range(n)]
+    models = {m: dict(name=m, pk="s:id", rels=[]) for m in names}
+    cut = rnd.choice([None, None, rnd.randint(2, n - 2)])          # one link missing: two components
+    for i in range(n - 1):
+        if cut == i:
+            continue
+        a, b = (names[i], names[i + 1]) if rnd.random() < 0.5 else (names[i + 1], names[i])
+        ty = rnd.choice(["many_to_one", "one_to_many", "one_to_one"])
+        models[a]["rels"].append(dict(name=b, type=ty, fk=rnd.choice(["-", "s:" + b + "_fk"]), pk="-", through="-", tfk="-", rfk="-"))
+    if rnd.random() < 0.4:
+        i = rnd.randint(0, n - 6)
+        j = rnd.randint(i + 4, n - 1)
+        models[names[i]]["rels"].append(dict(name=names[j], type=rnd.choice(["many_to_one", "one_to_many"]), fk="s:chord_fk", pk="-", through="-", tfk="-", rfk="-"))
+    return [models[m] for m in names]
+
+
 OPTS7 = [None, ("many_to_one", 0), ("many_to_one", 1), ("one_to_many", 0), ("one_to_many", 1), ("one_to_one", 0), ("one_to_one", 1)]
 PAIRS4 = list(itertools.combinations(range(4), 2))
 
@@ -381,6 +401,15 @@ def run(c):
         names = [m["name"] for m in models] + ["ghost"]
         pairs = [(a, b) for a in names for b in names]
         vsets = [rnd.sample(names, k=min(len(names), rnd.randint(2, 4))) for _ in range(2)]
+        cases.append((models, pairs, vsets))
+        lines += graph_lines(models) + ["Q %s %s" % p for p in pairs] + ["A %s" % m["name"] for m in models] + ["V %s" % ",".join(v) for v in vsets]
+    import random as _random
+    rnd_long = _random.Random(c.seed * 5 + 10)          # a stream of its own: the graphs above stay what they were
+    for _ in range(40 if c.tier == "quick" else 400):
+        models = gen_long_graph(rnd_long)
+        names = [m["name"] for m in models]
+        pairs = [(a, b) for a in names for b in names]
+        vsets = [[names[0], names[-1]], rnd_long.sample(names, k=3)]
         cases.append((models, pairs, vsets))
         lines += graph_lines(models) + ["Q %s %s" % p for p in pairs] + ["A %s" % m["name"] for m in models] + ["V %s" % ",".join(v) for v in vsets]
     got = lib.run_driver(exe, lines) if exe else None
